@@ -268,9 +268,27 @@ impl<'a, 'tcx> BodyCx<'a, 'tcx> {
             ("gargs", self.cx.gargs(args, 1)),
             ("safe", b(!matches!(tcx.def_kind(did), DefKind::Fn | DefKind::AssocFn)
                 || tcx.fn_sig(did).skip_binder().safety().is_safe())),
+            ("span", if did.is_local() { self.cx.span(tcx.def_span(did)) } else { "null".to_string() }),
         ];
         if let Some(tr) = tcx.trait_of_assoc(did) {
             v.push(("trait", esc(&self.cx.path(tr))));
+        }
+        v.push(("dk", esc(&format!("{:?}", tcx.def_kind(did)).split('(').next().unwrap_or("").to_string())));
+        if let DefKind::Ctor(of, _) = tcx.def_kind(did) {
+            // constructor used as a function value: Variant(..) / Struct(..)
+            let owner = tcx.parent(did);
+            let (adt_did, vname) = match of {
+                rustc_hir::def::CtorOf::Struct => (owner, tcx.item_name(owner).to_string()),
+                rustc_hir::def::CtorOf::Variant => (tcx.parent(owner), tcx.item_name(owner).to_string()),
+            };
+            let def = tcx.adt_def(adt_did);
+            let vidx = def.variants().iter_enumerated().find(|(_, vd)| vd.ctor_def_id() == Some(did)).map(|(i, _)| i.as_u32()).unwrap_or(0);
+            v.push(("ctor", obj(vec![
+                ("adt", esc(&self.cx.path(adt_did))),
+                ("lid", self.cx.lid(adt_did)),
+                ("vidx", format!("{}", vidx)),
+                ("vname", esc(&vname)),
+            ])));
         }
         if let Some(imp) = tcx.impl_of_assoc(did) {
             v.push((
@@ -284,7 +302,7 @@ impl<'a, 'tcx> BodyCx<'a, 'tcx> {
                 let mut r: Vec<(&str, String)> = vec![
                     ("path", esc(&self.cx.path(rd))),
                     ("lid", self.cx.lid(rd)),
-                    ("kind", esc(&format!("{:?}", std::mem::discriminant(&inst.def)))),
+                    ("span", if rd.is_local() { self.cx.span(tcx.def_span(rd)) } else { "null".to_string() }),
                 ];
                 let kind = match inst.def {
                     ty::InstanceKind::Item(_) => "item",
@@ -296,7 +314,7 @@ impl<'a, 'tcx> BodyCx<'a, 'tcx> {
                     ty::InstanceKind::DropGlue(..) => "drop_glue",
                     _ => "other",
                 };
-                r[2] = ("kind", esc(kind));
+                r.push(("kind", esc(kind)));
                 if matches!(tcx.def_kind(rd), DefKind::AssocFn) {
                     if let Some(imp) = tcx.impl_of_assoc(rd) {
                         r.push((
@@ -353,6 +371,43 @@ impl<'a, 'tcx> BodyCx<'a, 'tcx> {
                     }
                 }
                 return obj(v);
+            }
+        }
+        // references to statics (e.g. the generated regex static, user statics)
+        if let ty::Ref(..) = t.kind() {
+            if let Ok(ConstValue::Scalar(rustc_middle::mir::interpret::Scalar::Ptr(ptr, _))) =
+                c.const_.eval(tcx, self.env, c.span)
+            {
+                let (prov, _off) = ptr.into_raw_parts();
+                if let Some(rustc_middle::mir::interpret::GlobalAlloc::Static(sdid)) =
+                    tcx.try_get_global_alloc(prov.alloc_id())
+                {
+                    v.push(("static", esc(&self.cx.path(sdid))));
+                    v.push(("static_lid", self.cx.lid(sdid)));
+                    return obj(v);
+                }
+            }
+        }
+        // &[u8; N] constants (format_args! templates)
+        if let ty::Ref(_, inner, _) = t.kind() {
+            if let ty::Array(elem, _) = inner.kind() {
+                if *elem == tcx.types.u8 {
+                    if let Ok(ConstValue::Scalar(rustc_middle::mir::interpret::Scalar::Ptr(ptr, _))) =
+                        c.const_.eval(tcx, self.env, c.span)
+                    {
+                        let (prov, off) = ptr.into_raw_parts();
+                        if let Some(rustc_middle::mir::interpret::GlobalAlloc::Memory(a)) =
+                            tcx.try_get_global_alloc(prov.alloc_id())
+                        {
+                            let a = a.inner();
+                            let start = off.bytes() as usize;
+                            let bytes = a.inspect_with_uninit_and_ptr_outside_interpreter(start..a.len());
+                            let hex: String = bytes.iter().map(|x| format!("{:02x}", x)).collect();
+                            v.push(("bytes", esc(&hex)));
+                            return obj(v);
+                        }
+                    }
+                }
             }
         }
         if let Const::Val(ConstValue::ZeroSized, _) = c.const_ {
